@@ -133,6 +133,9 @@ func (p *Parser) parseCreateView(orReplace, temporary bool) (*ast.CreateViewStat
 
 	query, err := p.parseSelectWithSetOperations()
 	if err != nil {
+		if isRecursionLimit(err) {
+			return nil, err // a limit violation keeps its own code
+		}
 		return nil, goerrors.WrapError(
 			goerrors.ErrCodeInvalidSyntax,
 			"error parsing view query",
@@ -247,6 +250,9 @@ func (p *Parser) parseCreateMaterializedView() (*ast.CreateMaterializedViewState
 
 	query, err := p.parseSelectWithSetOperations()
 	if err != nil {
+		if isRecursionLimit(err) {
+			return nil, err // a limit violation keeps its own code
+		}
 		return nil, goerrors.WrapError(
 			goerrors.ErrCodeInvalidSyntax,
 			"error parsing materialized view query",
